@@ -792,8 +792,8 @@ func ruleEnumGuard(c *Ctx) []Obligation {
 	}
 	obs = append(obs, ok(R, "Set records the member in both maps", c.InstrPos(stores[0]), "ToString[value] = name; ToInt[name] = value"))
 	// parameters may live in cells when a closure or defer captures them: compare through isParamN
-	isName := func(v ssa.Value) bool { return isParamN(set, v, 1) }
-	isValue := func(v ssa.Value) bool { return isParamN(set, v, 2) }
+	isName := func(v ssa.Value) bool { return isParamN(set, resolveArg(v), 1) }
+	isValue := func(v ssa.Value) bool { return isParamN(set, resolveArg(v), 2) }
 	type rej struct {
 		con   string
 		match func(ifi *ssa.If) (errSucc *ssa.BasicBlock)
@@ -882,7 +882,12 @@ func ruleEnumGuard(c *Ctx) []Obligation {
 	for _, rj := range rejs {
 		good := false
 		var at ssa.Instruction
-		for _, b := range set.Blocks {
+		var blocks []*ssa.BasicBlock
+		blocks = append(blocks, set.Blocks...)
+		for _, h := range c.helpersUnder(set) {
+			blocks = append(blocks, h.Blocks...) // a test extracted into a private helper (e.checkRange(name, value))
+		}
+		for _, b := range blocks {
 			if len(b.Instrs) == 0 {
 				continue
 			}
@@ -895,6 +900,13 @@ func ruleEnumGuard(c *Ctx) []Obligation {
 				continue
 			}
 			at = ifi
+			if ifi.Parent() != set {
+				// in a helper: its error exit must be passed on by Set, and the call must come before the stores
+				if h := helperOf(ifi.Parent()); h != nil && blockReturnsError(es) && errorPropagated(h.site) && dominates(h.site, stores[0]) && dominates(h.site, stores[1]) {
+					good = true
+				}
+				continue
+			}
 			dom := dominates(ifi, stores[0]) && dominates(ifi, stores[1])
 			if !dom {
 				// `flag && test`: the test is reached only when the flag holds; the flag's own If dominates the stores
